@@ -126,10 +126,10 @@ def modSqrtAux (a : Int) : List Int → (first : Bool) → (res n : Int) → Sqr
   | fac :: rest, first, res, n =>
     let loc : SqrtResult :=
       if fac = 4 then
-        -- a.Bit(1), a.Bit(0) of |a|
-        let abs := a.natAbs
-        if abs / 2 % 2 ≠ 0 then .noRoot
-        else if abs % 2 = 0 then .root 2 else .root 1
+        -- a.Bit(1), a.Bit(0): two's complement bits, i.e. the bits of `a mod 4` (Euclidean)
+        let low := (a % 4).toNat
+        if low / 2 % 2 ≠ 0 then .noRoot
+        else if low % 2 = 0 then .root 2 else .root 1
       else primeSqrt (a % fac).toNat fac.toNat
     match loc with
     | .root r =>
